@@ -167,7 +167,7 @@ structure InvH (x y : Option Nat) (xs : Bool) (mb : Nat) (state : CState) (secur
   userH : ∀ k ∈ hk ++ ik, (k.2.1 = .userAll ↔ k.2.2 = true)
   userT : ∀ k ∈ tk, (k.2.1 = .userTimed ↔ k.2.2 = true)
   tfn : ∀ k1 ∈ tk, ∀ k2 ∈ tk, k1.2.1 = k2.2.1 → k1 = k2
-  idk : ∀ k ∈ ik, k.2.1 = .sys .bind ∨ k.2.1 = .sys .session ∨ k.2.1 = .sys .legacy
+  idk : ∀ k ∈ ik, k.2.1 = .sys .bind ∨ k.2.1 = .sys .session ∨ k.2.1 = .sys .legacy ∨ k.2.1 = .userAll
   one : ∀ k1 ∈ hk ++ ik, ∀ k2 ∈ hk ++ ik, negK k1 → negK k2 → x ≠ some k1.1 → x ≠ some k2.1 → k1 = k2
   phase : ∀ k ∈ hk ++ ik, ∀ s, k.2.1 = .sys s → s ≠ .error → x ≠ some k.1 →
     g.notifiedConnect = false ∧ Phase g secured smE smR state s
@@ -205,7 +205,7 @@ theorem InvH.addCore {x y xs mb st sec smE smR pst rp oh raw hk ik tk n g}
     (h : InvH x y xs mb st sec smE smR pst rp oh raw hk ik tk n g) (fn : HFun) (usr : Bool) (hk' ik' : List HK)
     (mem : ∀ k, k ∈ hk' ++ ik' ↔ k ∈ hk ++ ik ∨ k = (n, fn, usr))
     (memH : ∀ k ∈ hk', k ∈ hk ∨ k = (n, fn, usr))
-    (memI : ∀ k ∈ ik', k ∈ ik ∨ (k = (n, fn, usr) ∧ (k.2.1 = .sys .bind ∨ k.2.1 = .sys .session ∨ k.2.1 = .sys .legacy)))
+    (memI : ∀ k ∈ ik', k ∈ ik ∨ (k = (n, fn, usr) ∧ (k.2.1 = .sys .bind ∨ k.2.1 = .sys .session ∨ k.2.1 = .sys .legacy ∨ k.2.1 = .userAll)))
     (hnd : ((hk' ++ ik').map (·.1)).Nodup)
     (hu : fn = .userAll ↔ usr = true)
     (hneg : ∀ s, fn = .sys s → s ≠ .error →
@@ -294,13 +294,14 @@ theorem InvH.addH {x y xs mb st sec smE smR pst rp oh raw hk ik tk n g}
       · exact (fresh k' (List.mem_append.2 (Or.inr hk2))).symm
 
 theorem InvH.addI {x y xs mb st sec smE smR pst rp oh raw hk ik tk n g}
-    (h : InvH x y xs mb st sec smE smR pst rp oh raw hk ik tk n g) (fn : HFun)
-    (hk3 : fn = .sys .bind ∨ fn = .sys .session ∨ fn = .sys .legacy)
+    (h : InvH x y xs mb st sec smE smR pst rp oh raw hk ik tk n g) (fn : HFun) (usr : Bool)
+    (hk3 : fn = .sys .bind ∨ fn = .sys .session ∨ fn = .sys .legacy ∨ fn = .userAll)
+    (hu : fn = .userAll ↔ usr = true)
     (hneg : ∀ s, fn = .sys s → s ≠ .error →
       (∀ k ∈ hk ++ ik, negK k → x = some k.1) ∧ g.notifiedConnect = false ∧ Phase g sec smE smR st s ∧
       rp = false ∧ pst ≠ .fresh ∧ st ≠ .connecting ∧ (st ≠ .disconnected → raw = false)) :
-    InvH x y xs mb st sec smE smR pst rp oh raw hk (ik ++ [(n, fn, false)]) tk (n + 1) g := by
-  refine h.addCore fn false _ _ ?_ (fun k a => Or.inl a) ?_ ?_ ?_ hneg
+    InvH x y xs mb st sec smE smR pst rp oh raw hk (ik ++ [(n, fn, usr)]) tk (n + 1) g := by
+  refine h.addCore fn usr _ _ ?_ (fun k a => Or.inl a) ?_ ?_ hu hneg
   · intro k; simp only [List.mem_append, List.mem_singleton]; constructor
     · rintro (a | a | a) <;> simp [a]
     · rintro ((a | a) | a) <;> simp [a]
@@ -317,7 +318,6 @@ theorem InvH.addI {x y xs mb st sec smE smR pst rp oh raw hk ik tk n g}
     · rintro a ⟨k, hk1, rfl⟩ b' (⟨k', hk2, rfl⟩ | rfl)
       · exact nd.2.2 _ ⟨k, hk1, rfl⟩ _ ⟨k', hk2, rfl⟩
       · exact fresh k (List.mem_append.2 (Or.inl hk1))
-  · rcases hk3 with a | a | a <;> simp [a]
 
 theorem InvH.addT {x y xs mb st sec smE smR pst rp oh raw hk ik tk n g}
     (h : InvH x y xs mb st sec smE smR pst rp oh raw hk ik tk n g) (fn : TFun) (usr : Bool)
